@@ -78,10 +78,12 @@ type crossingMonitor struct {
 	initTTL  map[string]int
 	injected map[string]bool
 	forwards map[string]int
+	// origTTL: frames a router originated itself, with the TTL it gave them
+	origTTL map[string]int
 }
 
 func newMonitor() *crossingMonitor {
-	return &crossingMonitor{maxCross: map[string]int{}, initTTL: map[string]int{}, forwards: map[string]int{}, injected: map[string]bool{}}
+	return &crossingMonitor{maxCross: map[string]int{}, initTTL: map[string]int{}, forwards: map[string]int{}, injected: map[string]bool{}, origTTL: map[string]int{}}
 }
 
 func (cm *crossingMonitor) fail(sig, msg string) {
@@ -134,6 +136,9 @@ func (cm *crossingMonitor) onSend(p *vmesh.Packet) {
 	k := vmesh.Key(p.Data)
 	if p.Data[1] == 0 && !(cm.injected[k] && cm.maxCross[k] == 0) { // the attacker's own injection may carry TTL 0
 		cm.fail("sent-with-ttl-zero", fmt.Sprintf("a frame (type %d) was put on link %d->%d with TTL 0", p.Data[4], p.From, p.To))
+	}
+	if t0, ok := cm.origTTL[k]; ok && cm.maxCross[k] == 0 && int(p.Data[1]) >= t0 {
+		cm.fail("ttl-not-decreased", fmt.Sprintf("a frame (type %d) a router originated with TTL %d went onto its first link %d->%d with TTL %d", p.Data[4], t0, p.From, p.To, p.Data[1]))
 	}
 	// crossing bound, for frames whose initial TTL the harness registered
 	if t, ok := cm.initTTL[k]; ok {
@@ -227,6 +232,20 @@ func partA(res *core.Result, pool *idPool, r *rand.Rand, t *vmesh.Topology, labe
 				continue
 			}
 			A, B := ms.Nodes[a], ms.Nodes[b]
+			// Every router on the way has just tried to build a frame it cannot build (a local packet beyond the
+			// message limit, an oversized switch block): a refused build must leave nothing behind that the frames
+			// handled next could pick up.
+			if (a+b)%3 == 0 {
+				for _, nd := range ms.Nodes {
+					if _, err := nd.Inst.BuilderV.NewFrameV1(nd.ID.IP, A.ID.IP, frame.NetworkTraffic, nil, make([]byte, 10001+r.IntN(2000)), nil); err == nil {
+						res.Count("oversized_local_builds_accepted", 1)
+					}
+					if _, err := nd.Inst.BuilderV.NewFrameV1(nd.ID.IP, B.ID.IP, frame.RouterPing, make([]byte, 256), []byte("x"), nil); err == nil {
+						res.Count("oversized_local_builds_accepted", 1)
+					}
+				}
+				res.Count("pairs_after_refused_local_builds", 1)
+			}
 			// (1) custom probe ping, routed by destination address.
 			pingID := r.Uint64() | 1
 			data, err := buildPing(A, B.ID.IP, probeType, pingID, false, []byte{0xA1, 0x61, 0x78, 0x01})
@@ -455,14 +474,34 @@ func partB(res *core.Result, pool *idPool, r *rand.Rand, nInject int) {
 		f.SetTTL(uint8(ttl))
 		fd, _ := f.FrameDataWithMargins(0, 0)
 		data := append([]byte(nil), fd...)
-		f.ReturnToPool()
 		key := vmesh.Key(data)
-		cm.initTTL[key] = ttl + 1 // the injection itself is the first crossing (via -> at)
-		cm.injected[key] = true
-		p := ms.Inject(via, at, data)
-		ms.Take(ms.Pending() - 1)
-		_ = p
-		ms.Deliver(p)
+		if i%4 == 3 && ttl >= 2 && len(block) == 0 && dst != nd.ID.IP {
+			// a frame this router originates itself (no receive link), handed to its own routing: the originating
+			// hop is a forwarding step like any other - first crossing below the initial TTL, at most TTL-1 crossings
+			g, gerr := nd.Inst.BuilderV.NewFrameV1(nd.ID.IP, dst, mt, nil, core.RandBytes(r, 20+r.IntN(100)), nil)
+			f.ReturnToPool()
+			if gerr != nil {
+				continue
+			}
+			g.SetTTL(uint8(ttl))
+			gd, _ := g.FrameDataWithMargins(0, 0)
+			key = vmesh.Key(gd)
+			data = append([]byte(nil), gd...)
+			cm.initTTL[key] = ttl
+			cm.origTTL[key] = ttl
+			if err := nd.Inst.RouterV.RouteFrame(g); err != nil {
+				g.ReturnToPool()
+				continue
+			}
+			res.Count("originated_frames_routed", 1)
+		} else {
+			f.ReturnToPool()
+			cm.initTTL[key] = ttl + 1 // the injection itself is the first crossing (via -> at)
+			cm.injected[key] = true
+			p := ms.Inject(via, at, data)
+			ms.Take(ms.Pending() - 1)
+			ms.Deliver(p)
+		}
 		steps, drained := ms.Drain(vmesh.FIFO, 2000)
 		if !drained {
 			res.Violate("forwarding-does-not-terminate", fmt.Sprintf("%s: a frame injected with TTL %d is still being forwarded after %d deliveries", desc, ttl, steps), map[string]any{"mesh": desc, "ttl": ttl, "type": mt, "block": fmt.Sprintf("%x", block)})
